@@ -86,7 +86,7 @@ class C11:
     strict = False
 
     def strategy(self, tier, switches):
-        return inputs.sources(kinds=("core", "core", "expr", "mut1"))
+        return inputs.sources(kinds=("core", "core", "expr", "mut1", "wide", "wide", "api"))
 
     def fixed_cases(self, tier, switches):
         return inputs.all_seed_cases()
